@@ -11,6 +11,7 @@ import (
 
 	"verifharness/plan"
 	"verifharness/sim"
+	"verifharness/sims/term"
 	"verifharness/tape"
 )
 
@@ -52,6 +53,11 @@ func (c20) Classes() []sim.Class {
 			sim.Class{Name: "subset", Engine: e, Quick: 1500, Thorough: 60000, RunTimeoutSec: 60},
 			sim.Class{Name: "subsets-large", Engine: e, Quick: 300, Thorough: 12000, RunTimeoutSec: 60},
 			sim.Class{Name: "deep", Engine: e, Quick: 60, Thorough: 2000, RunTimeoutSec: 60},
+			// stack exhaustion below listened frames (the recursing functions themselves carry no listener)
+			sim.Class{Name: "overflow", Engine: e, Quick: 60, Thorough: 1500, RunTimeoutSec: 120, Batch: 4},
+			// frames unwound because the module was closed under a running call (close-on-context-done):
+			// the termination simulator's scenarios with a bracket-checking listener on every function
+			sim.Class{Name: "termination", Engine: e, Quick: 300, Thorough: 12000, RunTimeoutSec: 60},
 		)
 	}
 	return cs
@@ -79,14 +85,19 @@ func (c20) Describe() sim.Description {
 	d := c06{}.Describe()
 	d.Rule = "same histories as C06 with a recording FunctionListenerFactory for all functions or a tape-chosen subset (host function included; tail calls and the unbounded-recursion functions excluded); " +
 		"the plan model predicts the exact event stream (before with parameters and call chain from the callee outward per call engine, after with results, abort on unwinding); checked: bracketing automaton, values, chains, and results/state equal to the model (= the listener-free semantics). " +
-		"Class deep: call chains of depth 31-60 ending in a host panic, judged against the recorded known-finding signatures. Non-trivial: a failure unwound through >= 2 listened frames or a re-entrant call happened; distinct = distinct event streams"
+		"Class overflow: stack exhaustion below listened frames, the recursing functions carrying counting listeners. Class termination: the C07 scenarios (guest loops ended by cancel/deadline/close under WithCloseOnContextDone) with a bracket-checking listener on every function. Class deep: call chains of depth 31-60 ending in a host panic, judged against the recorded known-finding signatures. Non-trivial: a failure unwound through >= 2 listened frames or a re-entrant call happened; distinct = distinct event streams"
 	return d
 }
 
 func (c06) Run(t *tape.Tape, cfg sim.Config) sim.Result {
 	return run(t, cfg, cfg.Class == "history-with-listeners")
 }
-func (c20) Run(t *tape.Tape, cfg sim.Config) sim.Result { return run(t, cfg, true) }
+func (c20) Run(t *tape.Tape, cfg sim.Config) sim.Result {
+	if cfg.Class == "termination" {
+		return term.RunListened(t, cfg)
+	}
+	return run(t, cfg, true)
+}
 
 func run(t *tape.Tape, cfg sim.Config, listen bool) (res sim.Result) {
 	r := &runner{t: t, res: &res, engine: cfg.Engine, listen: listen}
@@ -96,12 +107,13 @@ func run(t *tape.Tape, cfg sim.Config, listen bool) (res sim.Result) {
 	if cfg.Class == "deep" {
 		return runDeep(r, &res)
 	}
-	o := plan.Opts{MinFuncs: 3, MaxFuncs: 8, MaxAtoms: 6, Host: true, Traps: true, Exit: true, Grow: true, Table: true, Segments: true, HostTags: 4, GRef: true, Atomics: true, Wide: true}
+	o := plan.Opts{MinFuncs: 3, MaxFuncs: 8, MaxAtoms: 6, Host: true, Traps: true, Exit: true, Grow: true, Table: true, Segments: true, HostTags: 4, GRef: true, Atomics: true, Wide: true, Host2: true}
 	switch cfg.Class {
 	case "faultfree":
 		r.opts = classOpts{}
 		o.Traps, o.Exit = false, false
 	case "overflow":
+		r.recCount = listen
 		r.opts = classOpts{faultRate: 2, reenter: true, rec: true}
 		o.Rec = true
 		o.MaxFuncs = 5
@@ -202,6 +214,8 @@ func run(t *tape.Tape, cfg sim.Config, listen bool) (res sim.Result) {
 		refetch := t.Chance(1, 3)
 		// model first
 		r.script, r.spos, r.events, r.hostErr = nil, 0, nil, ""
+		r.recBefore, r.recEnd = 0, 0
+		overflowsBefore := r.w.Overflows
 		r.w.Events = nil
 		r.w.Depth = 0
 		r.w.MaxDepthSeen = 0
@@ -279,7 +293,15 @@ func run(t *tape.Tape, cfg sim.Config, listen bool) (res sim.Result) {
 			break
 		}
 		if listen {
-			r.compareEvents(what, 0, false)
+			res.Known = append(res.Known, r.compareEvents(what, 0, false)...)
+			if r.recBefore != r.recEnd && res.Violation == nil {
+				if r.engine == "compiler" && r.w.Overflows > overflowsBefore {
+					res.Known = append(res.Known, "compiler-no-abort-on-stack-exhaustion")
+				} else {
+					res.Fail("listener-unbalanced", "%s: the recursing function got %d before-events but %d after/abort-events (stack exhaustions predicted in this call: %d)", what, r.recBefore, r.recEnd, r.w.Overflows-overflowsBefore)
+				}
+			}
+			res.Known = dedup(res.Known)
 		}
 		if failedDeep > 0 {
 			callsAfterFail++
